@@ -2,9 +2,10 @@
    pkg/playlist; [mismatches] returns the indices of the cases on which the model
    (instantiated with Model/PlaylistOracle.go_oracles) disagrees, with the observable:
      1 = Marshal bytes, 2 = Media.Unmarshal, 3 = Multivariant.Unmarshal, 4 = playlist.Unmarshal,
-     5 = the model answered Panic / OutOfFuel. *)
+     5 = the model answered Panic / OutOfFuel,
+     6 = Model/PlaylistStrict.strict_ok disagrees with the Go grammar checker (no violation). *)
 From Coq Require Import List ZArith Bool String Ascii Uint63.
-From GoHls Require Import Model.PlaylistBase Model.PlaylistOracle Model.Playlist.
+From GoHls Require Import Model.PlaylistBase Model.PlaylistOracle Model.Playlist Model.PlaylistStrict.
 Import ListNotations.
 Local Open Scope string_scope.
 Local Open Scope Z_scope.
@@ -43,14 +44,15 @@ Proof. repeat decide equality. Defined.
 Inductive pcase :=
 | CValueMedia (m : Media) (bytes : string)             (* Marshal of m returned bytes; then as CUnmarshal bytes *)
               (media : option (option Media)) (multi : option (option Multivariant))
-              (auto : option (option playlist))
+              (auto : option (option playlist)) (strict : option bool)
 | CValueMulti (m : Multivariant) (bytes : string)
               (media : option (option Media)) (multi : option (option Multivariant))
-              (auto : option (option playlist))
+              (auto : option (option playlist)) (strict : option bool)
 | CUnmarshal (s : string)
              (media : option (option Media))           (* Media.Unmarshal, if observed *)
              (multi : option (option Multivariant))    (* Multivariant.Unmarshal, if observed *)
-             (auto : option (option playlist)).           (* playlist.Unmarshal, if observed *)
+             (auto : option (option playlist))
+             (strict : option bool)             (* Go grammar checker found no violation, if observed *).           (* playlist.Unmarshal, if observed *)
 
 Definition res_cmp {A} (eqb : A -> A -> bool) (r : res A) (obs : option A) (tag : nat) : list nat :=
   match r, obs with
@@ -84,15 +86,21 @@ Definition check_unmarshal (s : string) (media : option (option Media))
       | None => []
       end.
 
+Definition check_strict (s : string) (strict : option bool) : list nat :=
+  match strict with
+  | Some b => if Bool.eqb (strict_ok s) b then [] else [6%nat]
+  | None => []
+  end.
+
 Definition check_case (c : pcase) : list nat :=
   match c with
-  | CValueMedia m bytes media multi auto =>
+  | CValueMedia m bytes media multi auto strict =>
       (if String.eqb (media_marshal go_oracles m) bytes then [] else [1%nat])
-      ++ check_unmarshal bytes media multi auto
-  | CValueMulti m bytes media multi auto =>
+      ++ check_unmarshal bytes media multi auto ++ check_strict bytes strict
+  | CValueMulti m bytes media multi auto strict =>
       (if String.eqb (multivariant_marshal go_oracles m) bytes then [] else [1%nat])
-      ++ check_unmarshal bytes media multi auto
-  | CUnmarshal s media multi auto => check_unmarshal s media multi auto
+      ++ check_unmarshal bytes media multi auto ++ check_strict bytes strict
+  | CUnmarshal s media multi auto strict => check_unmarshal s media multi auto ++ check_strict s strict
   end.
 
 Fixpoint mismatches_from (i : nat) (cs : list pcase) : list (nat * list nat) :=
